@@ -23,8 +23,10 @@ RULE = ("random discrete frames: 1..80 rows, 2+|Z| (+1 spare) columns, |Z| 0..3,
         "alpha in {0, .01, .05, .1, .5, .9, 1}; boolean True and False.  Exactly independent tables (product "
         "counts per stratum, incl. single-level strata).  Rejection stream (X or Y in Z, unobserved Categorical "
         "level in the unconditional table, documented lambda_ name).  pearsonr: 4..24 rows of dyadic values, "
-        "|Z| 0..3, optional duplicated/constant Z column (rank deficient), shift and positive rescaling of every "
-        "variable.  A discrete case is non-trivial when the model's dof >= 1; a pearsonr case when the residual "
+        "|Z| 0..3, optional duplicated/constant Z column (rank deficient), conditioning columns of clearly different "
+        "means and scales (half of the |Z|>=2 cases), shift and positive rescaling of every variable, per-column "
+        "centring/standardising of Z.  Numeric lambda_ grid {0, 0.0, -0.0, 1, -1, -1.0, -2, 2/3, 0.5} (python int and "
+        "float) x {no Z, Z} on frames with dof >= 1.  A discrete case is non-trivial when the model's dof >= 1; a pearsonr case when the residual "
         "correlation is defined.  distinct = distinct canonical (kind, data, X, Y, Z, wrapper, lambda_, alpha)")
 TRUSTED_BASE = [
     "scipy.stats.chi2_contingency / power_divergence cell formula (PHI is an uninterpreted atom; the harness "
@@ -97,6 +99,39 @@ def gen_disc(rng, tier):
             "alpha": rng.choice(ALPHAS), "law": law, "lab": rng.randint(0, 3), "sh": rng.randint(0, 10 ** 9)}
 
 
+NUMERIC_GRID = [["int", 0], ["num", 0.0], ["num", -0.0], ["int", 1], ["int", -1], ["num", -1.0], ["int", -2],
+                ["num", 2.0 / 3.0], ["num", 0.5]]
+
+
+def gen_lambda(rng, larg, with_z):
+    """a frame with dof >= 1 by construction (every level of X and Y in every stratum), numeric lambda_ given"""
+    nz = rng.choice([1, 2]) if with_z else 0
+    ncols = 2 + nz
+    cols = list(range(ncols))
+    rng.shuffle(cols)
+    X, Y, Z = cols[0], cols[1], cols[2:]
+    cards = [rng.randint(2, 3) for _ in range(ncols)]
+    for z in Z:
+        cards[z] = 2
+    rows = []
+    zconfs = [[]]
+    for z in Z:
+        zconfs = [zc + [v] for zc in zconfs for v in range(cards[z])]
+    for zc in zconfs:
+        for x in range(cards[X]):
+            for y in range(cards[Y]):
+                for _ in range(rng.randint(1, 6)):
+                    r = [0] * ncols
+                    r[X], r[Y] = x, y
+                    for z, v in zip(Z, zc):
+                        r[z] = v
+                    rows.append(r)
+    rng.shuffle(rows)
+    return {"kind": "disc", "kinds": [None] * ncols, "rows": rows, "X": X, "Y": Y, "Z": Z, "w": "power_divergence",
+            "larg": list(larg), "alpha": rng.choice(ALPHAS), "law": "full", "lab": rng.randint(0, 3),
+            "sh": rng.randint(0, 10 ** 9)}
+
+
 def gen_indep(rng, tier):
     """product counts in every stratum => observed == expected exactly"""
     nz = rng.choice([0, 1, 1, 2])
@@ -164,6 +199,13 @@ def gen_pearson(rng, tier):
     mode = rng.choice(["noise", "lin", "lin", "chain"])
     den = 16
     z = [[rng.randint(-40, 40) for _ in range(nz)] for _ in range(n)]
+    spread = False
+    if nz >= 2 and rng.random() < 0.5:
+        # conditioning columns of clearly different means and scales
+        spread = True
+        offs = rng.sample([-800, -160, 0, 240, 1600], nz)
+        scs = rng.sample([1, 4, 16, 48], nz)
+        z = [[offs[j] + scs[j] * rng.randint(-10, 10) for j in range(nz)] for _ in range(n)]
     sing = None
     if nz >= 2 and rng.random() < 0.15:
         sing = rng.choice(["dup", "const"])
@@ -189,7 +231,7 @@ def gen_pearson(rng, tier):
     shifts = [rng.randint(-96, 96) for _ in range(nz + 2)]
     scales = [rng.choice([0.25, 0.5, 2.0, 3.0, 5.0, 0.75, 10.0]) for _ in range(nz + 2)]
     return {"kind": "pearson", "den": den, "z": z, "x": x, "y": y, "alpha": rng.choice(ALPHAS), "mode": mode,
-            "sing": sing, "shifts": shifts, "scales": scales, "zperm": rng.randint(0, 10 ** 9)}
+            "sing": sing, "spread": spread, "shifts": shifts, "scales": scales, "zperm": rng.randint(0, 10 ** 9)}
 
 
 def cases(tier, seed):
@@ -198,6 +240,10 @@ def cases(tier, seed):
     out = []
     for _ in range(900 * mult):
         out.append(gen_disc(rng, tier))
+    for _ in range(3 * mult):
+        for larg in NUMERIC_GRID:
+            for with_z in (False, True):
+                out.append(gen_lambda(rng, larg, with_z))
     for _ in range(250 * mult):
         out.append(gen_indep(rng, tier))
     for _ in range(90 * mult):
@@ -342,6 +388,8 @@ def larg_py(case):
         return {"lambda_": LNAMES[l[1]]}, [0, l[1]]
     if l[0] == "num":
         return {"lambda_": float(l[1])}, [1, Fraction(float(l[1]))]
+    if l[0] == "int":
+        return {"lambda_": int(l[1])}, [1, Fraction(int(l[1]))]
     return {"lambda_": l[1]}, [0, 6]   # the documented spelling 'freeman-tuckey' (accepted since fix 50eed3a)
 
 
@@ -389,6 +437,9 @@ def run_disc(case, drv):
     if case["larg"]:
         tags.append("lambda_:%s" % (LNAMES[case["larg"][1]] if case["larg"][0] == "name" else
                                     case["larg"][1] if len(case["larg"]) > 1 else "None"))
+        if case["larg"][0] in ("num", "int"):
+            tags.append("numeric-lambda:%s%r:%s" % ("int " if case["larg"][0] == "int" else "", case["larg"][1],
+                                                    "Z" if Z else "noZ"))
     key = common.canon_key([case["kind"], case["kinds"], sorted(map(tuple, case["rows"])), X, Y, Z, case["w"],
                             case["larg"], case["alpha"]])
     kw, lwire = larg_py(case)
@@ -494,6 +545,11 @@ def run_pearson(case, drv):
     nz = len(z[0]) if z else 0
     tags = ["kind:pearson", "nz:%d" % nz, "mode:" + case["mode"], "sing:%s" % case["sing"],
             "n:%s" % ("<=8" if n <= 8 else "<=20" if n <= 20 else ">20")]
+    if nz >= 2:
+        cm = [sum(r[j] for r in z) / n / den for j in range(nz)]
+        cs = [max(r[j] for r in z) - min(r[j] for r in z) for j in range(nz)]
+        if max(cm) - min(cm) >= 5.0 and max(cs) >= 3 * max(1, min(cs)):
+            tags.append("z-columns:different-means-and-scales")
     key = common.canon_key(["pearson", z, x, y, case["alpha"]])
     df, zn = pearson_frame(den, z, x, y)
     coef_i, p_i = CITests.pearsonr("X", "Y", zn, df, boolean=False)
@@ -553,6 +609,11 @@ def run_pearson(case, drv):
         z2 = list(zn)
         rng.shuffle(z2)
         variants.append(("z-order", df, z2))
+        # centre every conditioning column by ITS OWN mean / standardise every column separately
+        variants.append(("z-center-columns", df.assign(**{c: df[c] - df[c].mean() for c in zn}), zn))
+        sd = {c: float(df[c].std()) for c in zn}
+        if all(v > 0 for v in sd.values()):
+            variants.append(("z-standardise-columns", df.assign(**{c: (df[c] - df[c].mean()) / sd[c] for c in zn}), zn))
     variants.append(("row-shuffle", df.sample(frac=1.0, random_state=case["zperm"] % (2 ** 31)).reset_index(drop=True), zn))
     for name, d2, z2 in variants:
         c2, p2 = CITests.pearsonr("X", "Y", z2, d2, boolean=False)
